@@ -228,7 +228,7 @@ for _pid, _more in {
     "C01": " Filters on scalar elements (`ports[*][ this > 1024 ] <= 65535`, lists and single values, with and without `[*]`, `some`) are checked against an in-place model (520 clauses).",
     "C05": " `test --dir` over five tests files of one rules file (json, junit, console) must list the cases in the same order in every run; the generic console rendering of a plain settings document is repeated as well.",
     "C09": " A failing rule that holds a passing `not <rule>` clause lists its own failing check only (4 clause forms, named rule before / after).",
-    "C10": " A third of the documents carry a list of 11-14 elements.",
+    "C10": " A third of the documents carry a list of 11-14 elements; a gadget compares captured map keys (known finding: reported with the path of the enclosing map).",
     "C12": " Batches that mix templates and plain settings files: every console block equals (as a multiset of lines) the console output of the pair validated alone.",
     "C18": " json_parse of 13 non-map documents (null, scalars, lists): equal to the document, one value per text.",
 }.items():
